@@ -40,6 +40,10 @@ def gen_spec(rng, tier, nmin=2, nmax=7, steps=(40, 160), restarts=True,
         spec["engine0"] = True
     if rng.random() < 0.15:
         spec["lm1"] = -1.5
+        if rng.random() < 0.5:
+            # the whole order-parameter axis shifted by 1.5: lambda_minus_one
+            # is exactly 0.0 (legal, but falsy)
+            spec["shift"] = 1.5
     if rng.random() < 0.15:
         spec["allowmaxlength"] = True
     if "wf" not in moves and rng.random() < 0.4:
@@ -103,7 +107,7 @@ def case_dir(scratch, i):
 def brief(spec):
     keys = ["n_intf", "moves", "workers", "cap", "seed", "steps", "policy",
             "segments", "delete_old", "delete_old_all", "engine0", "lm1",
-            "maxlength", "subcycles"]
+            "maxlength", "subcycles", "shift"]
     return {k: spec[k] for k in keys if k in spec}
 
 
